@@ -58,7 +58,17 @@ func runC04(c *core.Ctx) *core.Outcome {
 	if cfg.OutputSize > 0 && cfg.OutputSize < 40 {
 		cfg.OutputSize = 60 // multi-page nodes, not refused renders, are the point here
 	}
-	a := app.Generate(t, c04Profile(cfg.FlagCount, t.Chance(1, 2)))
+	// one run in 60 is a deep one: two nodes that descend into each other, a stack of up to 128
+	// entries (the limit the library enforces is not approached from above here: C08 does that)
+	deep := t.Chance(1, 60)
+	var a *app.App
+	if deep {
+		a = deepApp(t)
+		cfg.OutputSize = 0
+		o.Probes["deep_run"]++
+	} else {
+		a = app.Generate(t, c04Profile(cfg.FlagCount, t.Chance(1, 2)))
+	}
 	if err := a.Validate(); err != nil {
 		panic("generator produced ill-formed app: " + err.Error())
 	}
@@ -66,6 +76,11 @@ func runC04(c *core.Ctx) *core.Outcome {
 	r := newModelRun(a, cfg, persisted)
 	defer r.w.Close()
 	nreq := t.Range(2, 14)
+	descents := 0
+	if deep {
+		descents = []int{127, 126, 128, 100}[t.Weighted(4, 2, 2, 1)] - 1 // stack entries wanted, minus the root
+		nreq += descents + 1
+	}
 	kinds := map[string]bool{}
 	for i := 0; i < nreq; i++ {
 		t.Begin("request")
@@ -75,6 +90,15 @@ func runC04(c *core.Ctx) *core.Outcome {
 			in = genInput(t, a, cur, 1)
 		}
 		fresh := persisted && t.Chance(3, 4)
+		if deep && i > 0 && i <= descents {
+			in = []byte("1")
+			fresh = persisted && (i%16 == 0 || i >= descents-2)
+		} else if deep && string(in) == "1" && len(r.m.Path) >= 128 {
+			in = []byte("0") // state.MaxLevel entries: the library refuses to go deeper
+		}
+		if deep && len(r.m.Path) >= 127 {
+			o.Probes["deep_request_at_127_or_more_entries"]++
+		}
 		t.End()
 		before := strings.Join(r.m.Path, "/")
 		ob := r.request(in, fresh)
